@@ -6,7 +6,11 @@
 (* F_DUPFD_CLOEXEC >= 10, open the operand, install it with dup2 / close,  *)
 (* record the saved copy), then per command kind run / undo in reverse     *)
 (* order / preserve (`exec`), and the error continuations of builtin.rs,   *)
-(* function.rs, external.rs, absent.rs and compound_command.rs.            *)
+(* function.rs, external.rs, absent.rs and compound_command.rs.  For the   *)
+(* dot built-in (`. file`, `command . file`) the shell's own descriptor    *)
+(* traffic is modelled too: open the script low, move it to >= 10 with     *)
+(* FD_CLOEXEC (yash-env/src/io.rs move_fd_internal: the low descriptor is  *)
+(* closed whether or not the move succeeds), run, close.                   *)
 (*                                                                         *)
 (* The model is written from the INTENDED protocol: a step that fails      *)
 (* releases what the earlier steps of the same redirection acquired.  The  *)
@@ -35,18 +39,21 @@ VARIABLES sc,      \* the scenario (constant along a behaviour)
           spec,    \* FdSpec: [own, fd]  (fd = -1: Closed)
           failed,  \* index of the failing redirection, 0 if none
           ran, obsIn, wr,   \* observation made by the command body
-          st, exited        \* status after the command; shell exited
-vars == <<sc, k, pc, i, saved, cur, spec, failed, ran, obsIn, wr, st, exited>>
+          st, exited,       \* status after the command; shell exited
+          dotfd             \* descriptor the dot built-in reads its script from (-1: none)
+vars == <<sc, k, pc, i, saved, cur, spec, failed, ran, obsIn, wr, st, exited, dotfd>>
 
 -----------------------------------------------------------------------------
-\* files: a, b regular; m missing; d directory; t character device
-PathOrder == <<"a", "b", "m", "d", "t", "si", "so", "se", "s">>
-Files0 == [p \in {"a", "b", "m", "d", "t", "si", "so", "se", "s"} |->
+\* files: a, b regular; m missing; d directory; t character device; s, x the
+\* shell's script and the dot script (content not made of units: "!!")
+PathOrder == <<"a", "b", "m", "d", "t", "si", "so", "se", "s", "x">>
+Files0 == [p \in {"a", "b", "m", "d", "t", "si", "so", "se", "s", "x"} |->
              CASE p = "a" -> [kind |-> "reg", data |-> <<"x0", "y0">>]
                [] p = "b" -> [kind |-> "reg", data |-> <<"z0">>]
                [] p = "m" -> [kind |-> "none", data |-> <<>>]
                [] p = "d" -> [kind |-> "dir", data |-> <<>>]
                [] p = "t" -> [kind |-> "chr", data |-> <<>>]
+               [] p = "x" -> [kind |-> "reg", data |-> <<"!!">>]
                [] OTHER   -> [kind |-> "reg", data |-> <<>>]]
 
 FdE(id) == [id |-> id, cx |-> FALSE]
@@ -98,7 +105,9 @@ Mid     == Alpha({1, 3}, AllOps, {"a", "m", "d"}, {1, 2, 3, 4, 10}, {"closeout",
            \cup Alpha({0}, {"in", "rw", "dupin"}, {"a", "m"}, {3, 5, 10}, {"closein", "here"})
 Lim1    == Alpha({1, 3, 5}, AllOps, {"a", "m"}, {1, 4, 10}, {"closeout", "here"})
 
-AllKinds  == {"special", "builtin", "function", "group", "subshell", "notfound", "empty", "exec"}
+AllKinds  == {"special", "builtin", "function", "group", "subshell", "notfound", "empty", "exec",
+              "dot", "cmddot"}
+DotKinds  == {"dot", "cmddot"}
 CoreKinds == {"builtin", "special", "exec", "empty"}
 
 Sc(init, nc, lim, kind, bst, list) ==
@@ -124,6 +133,8 @@ Fam(c) ==
   \* family of the negative configurations (Bug # "none")
   CASE c = "neg"  -> Family({"std", "x35"}, BOOLEAN, {NoLimit}, {"builtin", "exec"}, FALSE,
                             Seq1(Small \cup Alpha({1}, {"clob"}, {"a"}, {}, {})) \cup Seq2(Small, Small))
+    [] c = "negdot" -> Family({"std", "int"}, {FALSE}, {9, 10, 11, 12}, DotKinds, FALSE,
+                              Seq1(Small) \cup {<<>>})
     \* quick -----------------------------------------------------------------
     \* every single redirection x every command kind, no limit
     [] c = "q1a" -> Family({"std", "x35"}, BOOLEAN, {NoLimit}, AllKinds, TRUE, Seq1(Full1) \cup {<<>>})
@@ -133,12 +144,13 @@ Fam(c) ==
     [] c = "resv" -> Family({"int"}, {FALSE}, {NoLimit}, CoreKinds, FALSE,
                            Seq1(Alpha({10}, {"in", "out", "dupout"}, {"a"}, {1}, {"closeout", "here"})))
     \* single redirections under every descriptor limit
-    [] c = "q2" -> Family(All4, {FALSE}, 0 .. 13, {"builtin", "exec", "empty"}, FALSE, Seq1(Lim1))
+    [] c = "q2" -> Family(All4, {FALSE}, 0 .. 13, {"builtin", "exec", "empty"} \cup DotKinds, FALSE,
+                          Seq1(Lim1) \cup {<<>>})
     \* pairs, no limit
     [] c = "q3" -> Family({"std", "x35"}, BOOLEAN, {NoLimit}, CoreKinds \cup {"function"}, FALSE,
                           Seq2(Small, Small))
     \* pairs under the limits where the first / the second saved copy does not fit
-    [] c = "q4" -> Family({"std", "int"}, {FALSE}, {10, 11, 12}, {"builtin", "exec", "empty"}, FALSE,
+    [] c = "q4" -> Family({"std", "int"}, {FALSE}, {10, 11, 12}, {"builtin", "exec", "empty", "cmddot"}, FALSE,
                           Seq2(Small, Small))
     \* a small family that exercises every action (run with -coverage)
     [] c = "cov" -> Family({"int"}, BOOLEAN, {NoLimit, 11}, AllKinds, TRUE,
@@ -149,7 +161,7 @@ Fam(c) ==
     [] c = "t1b" -> Family(All4, {FALSE}, 0 .. 13, AllKinds, FALSE, Seq1(Full1))
     [] c = "t2" -> Family({"std", "x35"}, BOOLEAN, {NoLimit}, CoreKinds \cup {"function"}, FALSE,
                           Seq2(Mid, Mid))
-    [] c = "t3" -> Family(All4, {FALSE}, 3 .. 13, CoreKinds, FALSE, Seq2(Small, Small))
+    [] c = "t3" -> Family(All4, {FALSE}, 3 .. 13, CoreKinds \cup DotKinds, FALSE, Seq2(Small, Small))
     [] c = "t4" -> Family({"std", "x35"}, {FALSE}, {NoLimit}, {"builtin", "exec"}, FALSE,
                           Seq3(Small, Small, Small))
     [] c = "t5" -> Family({"std"}, {FALSE}, {12}, {"builtin"}, FALSE, Seq3(Small, Small, Small))
@@ -164,8 +176,8 @@ Parts(c) ==
 
 
 -----------------------------------------------------------------------------
-Runs(kind)   == kind \in {"special", "builtin", "function", "group", "subshell"}
-IsSpecial(kind) == kind \in {"special", "exec"}
+Runs(kind)   == kind \in {"special", "builtin", "function", "group", "subshell", "dot", "cmddot"}
+IsSpecial(kind) == kind \in {"special", "exec", "dot"}
 \* descriptors the probe inside the command tries to write one unit to
 MarkFds == <<0, 1, 2, 3, 5>>
 Tok(f)  == CASE f = 0 -> "c0" [] f = 1 -> "c1" [] f = 2 -> "c2" [] f = 3 -> "c3" [] f = 5 -> "c5"
@@ -178,6 +190,7 @@ Init ==
   /\ pc = IF Len(sc.list) = 0 THEN "exec" ELSE "check"
   /\ i = 1 /\ saved = <<>> /\ cur = -1 /\ spec = [own |-> FALSE, fd |-> -1]
   /\ failed = 0 /\ ran = FALSE /\ obsIn = <<>> /\ wr = <<>> /\ st = 0 /\ exited = FALSE
+  /\ dotfd = -1
 
 Rd == sc.list[i]
 
@@ -186,7 +199,7 @@ CheckReserved ==
   /\ pc = "check"
   /\ IF KCloexec(k, Rd.t) THEN failed' = i /\ pc' = "unwind"
                           ELSE failed' = failed /\ pc' = "save"
-  /\ UNCHANGED <<sc, k, i, saved, cur, spec, ran, obsIn, wr, st, exited>>
+  /\ UNCHANGED <<sc, k, i, saved, cur, spec, ran, obsIn, wr, st, exited, dotfd>>
 
 \* "Save the current open file description at target_fd to a new FD"
 Save ==
@@ -196,7 +209,7 @@ Save ==
      IN IF res.ok THEN k' = res.k /\ cur' = res.fd /\ pc' = "open" /\ failed' = failed
         ELSE IF res.err = "EBADF" THEN k' = k /\ cur' = -1 /\ pc' = "open" /\ failed' = failed
         ELSE k' = k /\ cur' = -1 /\ pc' = "unwind" /\ failed' = i
-  /\ UNCHANGED <<sc, i, saved, spec, ran, obsIn, wr, st, exited>>
+  /\ UNCHANGED <<sc, i, saved, spec, ran, obsIn, wr, st, exited, dotfd>>
 
 \* the operand: a file, a descriptor to copy, `-`, or a here-document
 OpenFlags(op) ==
@@ -219,7 +232,7 @@ OpenFile ==
          res == KOpen(k, Rd.path, fl.acc, fl.creat, fl.excl, fl.trunc, fl.app, Sim)
      IN /\ k' = res.k
         /\ IF res.ok THEN OpenOk(res.fd, TRUE) ELSE OpenFail
-  /\ UNCHANGED <<sc, i, saved, cur, ran, obsIn, wr, st, exited>>
+  /\ UNCHANGED <<sc, i, saved, cur, ran, obsIn, wr, st, exited, dotfd>>
 
 \* open_file_noclobber: O_CREAT|O_EXCL first ...
 OpenExcl ==
@@ -229,7 +242,7 @@ OpenExcl ==
         /\ IF res.ok THEN OpenOk(res.fd, TRUE)
            ELSE IF res.err = "EEXIST" THEN pc' = "open2" /\ failed' = failed /\ spec' = spec
            ELSE OpenFail
-  /\ UNCHANGED <<sc, i, saved, cur, ran, obsIn, wr, st, exited>>
+  /\ UNCHANGED <<sc, i, saved, cur, ran, obsIn, wr, st, exited, dotfd>>
 
 \* ... then the existing file without O_CREAT; refuse it if it is regular
 OpenExisting ==
@@ -238,19 +251,19 @@ OpenExisting ==
      IN IF ~res.ok THEN k' = res.k /\ OpenFail
         ELSE IF KIsRegular(res.k, res.fd) THEN k' = KClose(res.k, res.fd).k /\ OpenFail
         ELSE k' = res.k /\ OpenOk(res.fd, TRUE)
-  /\ UNCHANGED <<sc, i, saved, cur, ran, obsIn, wr, st, exited>>
+  /\ UNCHANGED <<sc, i, saved, cur, ran, obsIn, wr, st, exited, dotfd>>
 
 \* copy_fd: the source must be open with the right access and not reserved
 CopyFd ==
   /\ pc = "open" /\ Rd.op \in {"dupin", "dupout"}
   /\ LET okAcc == IF Rd.op = "dupin" THEN KReadable(k, Rd.n) ELSE KWritable(k, Rd.n)
      IN IF okAcc /\ ~KCloexec(k, Rd.n) THEN OpenOk(Rd.n, FALSE) ELSE OpenFail
-  /\ UNCHANGED <<sc, k, i, saved, cur, ran, obsIn, wr, st, exited>>
+  /\ UNCHANGED <<sc, k, i, saved, cur, ran, obsIn, wr, st, exited, dotfd>>
 
 CloseSpec ==
   /\ pc = "open" /\ Rd.op \in {"closein", "closeout"}
   /\ OpenOk(-1, FALSE)
-  /\ UNCHANGED <<sc, k, i, saved, cur, ran, obsIn, wr, st, exited>>
+  /\ UNCHANGED <<sc, k, i, saved, cur, ran, obsIn, wr, st, exited, dotfd>>
 
 \* here_doc::open_fd: anonymous temporary file, filled, rewound
 OpenHere ==
@@ -258,7 +271,7 @@ OpenHere ==
   /\ LET res == KOpenTmp(k, Rd.data)
      IN /\ k' = res.k
         /\ IF res.ok THEN OpenOk(res.fd, TRUE) ELSE OpenFail
-  /\ UNCHANGED <<sc, i, saved, cur, ran, obsIn, wr, st, exited>>
+  /\ UNCHANGED <<sc, i, saved, cur, ran, obsIn, wr, st, exited, dotfd>>
 
 \* dup2 onto the target and close the temporary descriptor, or close the target
 Install ==
@@ -275,7 +288,7 @@ Install ==
           IN /\ k' = k2
              /\ IF d.ok THEN pc' = "record" /\ failed' = failed
                 ELSE pc' = "release" /\ failed' = i
-  /\ UNCHANGED <<sc, i, saved, cur, spec, ran, obsIn, wr, st, exited>>
+  /\ UNCHANGED <<sc, i, saved, cur, spec, ran, obsIn, wr, st, exited, dotfd>>
 
 \* RedirGuard::perform_redir: push the SavedFd, go on with the next one
 Record ==
@@ -284,7 +297,7 @@ Record ==
   /\ cur' = -1
   /\ IF i < Len(sc.list) THEN i' = i + 1 /\ pc' = "check"
                          ELSE i' = i /\ pc' = "exec"
-  /\ UNCHANGED <<sc, k, spec, failed, ran, obsIn, wr, st, exited>>
+  /\ UNCHANGED <<sc, k, spec, failed, ran, obsIn, wr, st, exited, dotfd>>
 
 \* INTENDED: the failing redirection gives back its own saved copy
 ReleaseSave ==
@@ -292,18 +305,48 @@ ReleaseSave ==
   /\ k' = IF cur >= 0 THEN KClose(k, cur).k ELSE k
   /\ cur' = -1
   /\ pc' = "unwind"
-  /\ UNCHANGED <<sc, i, saved, spec, failed, ran, obsIn, wr, st, exited>>
+  /\ UNCHANGED <<sc, i, saved, spec, failed, ran, obsIn, wr, st, exited, dotfd>>
 
 \* WRONG (Bug = "leak"): return the error and forget the saved copy
 LeakSave ==
   /\ pc = "release" /\ Bug = "leak"
   /\ cur' = -1
   /\ pc' = "unwind"
-  /\ UNCHANGED <<sc, k, i, saved, spec, failed, ran, obsIn, wr, st, exited>>
+  /\ UNCHANGED <<sc, k, i, saved, spec, failed, ran, obsIn, wr, st, exited, dotfd>>
 
 \* the command itself
+\* the dot built-in: open the script (O_CLOEXEC), lowest free descriptor ...
+DotOpen ==
+  /\ pc = "exec" /\ sc.kind \in DotKinds
+  /\ LET res == KOpen(k, "x", "r", FALSE, FALSE, FALSE, FALSE, Sim)
+     IN IF res.ok THEN /\ k' = [res.k EXCEPT !.fd[res.fd].cx = TRUE]
+                       /\ dotfd' = res.fd /\ pc' = "dotmove" /\ failed' = failed
+        ELSE k' = res.k /\ dotfd' = -1 /\ pc' = "unwind" /\ failed' = Len(sc.list) + 1
+  /\ UNCHANGED <<sc, i, saved, cur, spec, ran, obsIn, wr, st, exited>>
+
+\* ... and move it to >= 10 (move_fd_internal).  The low descriptor is closed
+\* whether or not the duplication succeeds.
+DotMove ==
+  /\ pc = "dotmove"
+  /\ IF dotfd >= 10 THEN k' = k /\ dotfd' = dotfd /\ pc' = "dotrun" /\ failed' = failed
+     ELSE LET d == KDup(k, dotfd, 10, TRUE)
+          IN IF d.ok THEN /\ k' = KClose(d.k, dotfd).k
+                          /\ dotfd' = d.fd /\ pc' = "dotrun" /\ failed' = failed
+             \* WRONG (Bug = "movenoclose"): return the error, keep the low descriptor
+             ELSE /\ k' = IF Bug = "movenoclose" THEN k ELSE KClose(k, dotfd).k
+                  /\ dotfd' = -1 /\ pc' = "unwind" /\ failed' = Len(sc.list) + 1
+  /\ UNCHANGED <<sc, i, saved, cur, spec, ran, obsIn, wr, st, exited>>
+
+\* the script has been read to its end: the built-in closes its descriptor
+DotClose ==
+  /\ pc = "dotclose"
+  /\ k' = KClose(k, dotfd).k
+  /\ dotfd' = -1
+  /\ pc' = "undo"
+  /\ UNCHANGED <<sc, i, saved, cur, spec, failed, ran, obsIn, wr, st, exited>>
+
 RunBody ==
-  /\ pc = "exec" /\ Runs(sc.kind)
+  /\ IF sc.kind \in DotKinds THEN pc = "dotrun" ELSE pc = "exec" /\ Runs(sc.kind)
   /\ ran' = TRUE
   /\ obsIn' = KTable(k)
   /\ LET n == Len(MarkFds)
@@ -314,24 +357,24 @@ RunBody ==
                 IN [k |-> w.k, wr |-> Append(p.wr, [fd |-> MarkFds[j], tok |-> Tok(MarkFds[j]), ok |-> w.ok])]
      IN k' = go[n].k /\ wr' = go[n].wr
   /\ st' = sc.bst
-  /\ pc' = IF Bug = "keepall" THEN "preserve" ELSE "undo"
-  /\ UNCHANGED <<sc, i, saved, cur, spec, failed, exited>>
+  /\ pc' = IF sc.kind \in DotKinds THEN "dotclose" ELSE IF Bug = "keepall" THEN "preserve" ELSE "undo"
+  /\ UNCHANGED <<sc, i, saved, cur, spec, failed, exited, dotfd>>
 
 RunNotFound ==
   /\ pc = "exec" /\ sc.kind = "notfound"
   /\ st' = 127 /\ pc' = "undo"
-  /\ UNCHANGED <<sc, k, i, saved, cur, spec, failed, ran, obsIn, wr, exited>>
+  /\ UNCHANGED <<sc, k, i, saved, cur, spec, failed, ran, obsIn, wr, exited, dotfd>>
 
 RunEmpty ==
   /\ pc = "exec" /\ sc.kind = "empty"
   /\ st' = 0 /\ pc' = "undo"
-  /\ UNCHANGED <<sc, k, i, saved, cur, spec, failed, ran, obsIn, wr, exited>>
+  /\ UNCHANGED <<sc, k, i, saved, cur, spec, failed, ran, obsIn, wr, exited, dotfd>>
 
 \* `exec` without operands asks for the redirections to be retained
 RunExec ==
   /\ pc = "exec" /\ sc.kind = "exec"
   /\ st' = 0 /\ pc' = "preserve"
-  /\ UNCHANGED <<sc, k, i, saved, cur, spec, failed, ran, obsIn, wr, exited>>
+  /\ UNCHANGED <<sc, k, i, saved, cur, spec, failed, ran, obsIn, wr, exited, dotfd>>
 
 \* RedirGuard::undo_redirs, one saved descriptor per step, last first
 UndoOne ==
@@ -343,7 +386,7 @@ UndoOne ==
                 ELSE KClose(k, s.orig).k
      IN /\ k' = k2
         /\ saved' = [j \in 1 .. (Len(saved) - 1) |-> IF j < idx THEN saved[j] ELSE saved[j + 1]]
-  /\ UNCHANGED <<sc, pc, i, cur, spec, failed, ran, obsIn, wr, st, exited>>
+  /\ UNCHANGED <<sc, pc, i, cur, spec, failed, ran, obsIn, wr, st, exited, dotfd>>
 
 \* RedirGuard::preserve_redirs
 PreserveOne ==
@@ -352,7 +395,7 @@ PreserveOne ==
   /\ LET s == Head(saved)
      IN k' = IF s.save >= 0 THEN KClose(k, s.save).k ELSE k
   /\ saved' = Tail(saved)
-  /\ UNCHANGED <<sc, pc, i, cur, spec, failed, ran, obsIn, wr, st, exited>>
+  /\ UNCHANGED <<sc, pc, i, cur, spec, failed, ran, obsIn, wr, st, exited, dotfd>>
 
 \* the subshell of a command without a name ends: its descriptor table dies
 \* with it, the files stay
@@ -362,21 +405,22 @@ Finish ==
   /\ pc \in {"undo", "preserve"} /\ saved = <<>>
   /\ k' = LeaveSubshell(k)
   /\ pc' = "done"
-  /\ UNCHANGED <<sc, i, saved, cur, spec, failed, ran, obsIn, wr, st, exited>>
+  /\ UNCHANGED <<sc, i, saved, cur, spec, failed, ran, obsIn, wr, st, exited, dotfd>>
 
-\* a redirection failed: status 2; a special built-in ends the shell
+\* a redirection failed: status 2 (the dot built-in could not get its script:
+\* status 1); an error of a special built-in ends the shell
 FinishError ==
   /\ pc = "unwind" /\ saved = <<>>
   /\ k' = LeaveSubshell(k)
-  /\ st' = 2
+  /\ st' = IF failed > Len(sc.list) THEN 1 ELSE 2
   /\ exited' = IsSpecial(sc.kind)
   /\ pc' = "done"
-  /\ UNCHANGED <<sc, i, saved, cur, spec, failed, ran, obsIn, wr>>
+  /\ UNCHANGED <<sc, i, saved, cur, spec, failed, ran, obsIn, wr, dotfd>>
 
 \* every scenario runs to completion (checked: no deadlock anywhere else)
 Terminated == pc = "done" /\ UNCHANGED vars
 
-Next == \/ CheckReserved \/ Save \/ OpenFile \/ OpenExcl \/ OpenExisting \/ CopyFd
+Next == \/ DotOpen \/ DotMove \/ DotClose \/ CheckReserved \/ Save \/ OpenFile \/ OpenExcl \/ OpenExisting \/ CopyFd
         \/ CloseSpec \/ OpenHere \/ Install \/ Record \/ ReleaseSave \/ LeakSave
         \/ RunBody \/ RunNotFound \/ RunEmpty \/ RunExec \/ UndoOne \/ PreserveOne
         \/ Finish \/ FinishError \/ Terminated
@@ -399,13 +443,13 @@ Conforms == pc = "done" => Verdict(ModelRec) = {}
 \* FD_CLOEXEC, except the operand's temporary descriptor between open and dup2
 InternalInv ==
   \A f \in DOMAIN k.fd :
-     /\ (k.fd[f].cx => f >= 10)
+     /\ (k.fd[f].cx => (f >= 10 \/ (pc = "dotmove" /\ f = dotfd)))
      /\ (f >= 10 /\ ~k.fd[f].cx) => (pc = "install" /\ spec.own /\ spec.fd = f)
 
-TypeOK == /\ pc \in {"check", "save", "open", "open2", "install", "record", "release",
+TypeOK == /\ pc \in {"dotmove", "dotrun", "dotclose", "check", "save", "open", "open2", "install", "record", "release",
                      "exec", "undo", "unwind", "preserve", "done"}
           /\ i \in 1 .. 3
-          /\ failed \in 0 .. 3
+          /\ failed \in 0 .. 4
 
 \* P2: one line per scenario: the scenario and the driver's prediction
 Brief(tab) == [j \in DOMAIN tab |-> <<tab[j].fd, tab[j].id, IF tab[j].cx THEN 1 ELSE 0>>]
